@@ -193,7 +193,7 @@ func runC09(cfg *config, res *monitor.Result) {
 		runC09Concurrent(cfg, res)
 		return
 	}
-	nseq := 6
+	nseq := 20
 	maxOps := 12
 	if cfg.thorough() {
 		nseq = 120
